@@ -206,34 +206,36 @@ type oparam struct {
 }
 
 type tfunc struct {
-	g       *tgen
-	tg      transTarget
-	pi      *pkgInfo
-	fd      *ast.FuncDecl
-	recvObj types.Object
-	names   map[types.Object]string
-	vtype   map[string]string // Lean type of every named value
-	nv      int
-	ntmp    int
-	nloop   int
-	nk      int
-	inLoop  int
-	oparams []*oparam
-	okey    map[string]*oparam
-	aux     []block
-	dropped map[string]bool
-	used    []map[string]bool
-	decl    []map[string]bool
-	retType string
-	results []types.Type
-	state   []*oparam      // written receiver state, threaded
-	named   []types.Object // named results
-	params  []string       // "(p1 : T)" in order, Go params
-	pnames  []string
-	havoc   []havoc // slices handed to untranslated callees by the statement being translated
-	elem    map[types.Object]elemSubst
-	owned   map[types.Object]bool
-	text    block
+	g         *tgen
+	tg        transTarget
+	pi        *pkgInfo
+	fd        *ast.FuncDecl
+	recvObj   types.Object
+	names     map[types.Object]string
+	vtype     map[string]string // Lean type of every named value
+	nv        int
+	ntmp      int
+	nloop     int
+	nk        int
+	inLoop    int
+	inClosure int
+	closures  map[types.Object]*ast.FuncLit // function literals bound to a local by `f := func…`
+	oparams   []*oparam
+	okey      map[string]*oparam
+	aux       []block
+	dropped   map[string]bool
+	used      []map[string]bool
+	decl      []map[string]bool
+	retType   string
+	results   []types.Type
+	state     []*oparam      // written receiver state, threaded
+	named     []types.Object // named results
+	params    []string       // "(p1 : T)" in order, Go params
+	pnames    []string
+	havoc     []havoc // slices handed to untranslated callees by the statement being translated
+	elem      map[types.Object]elemSubst
+	owned     map[types.Object]bool
+	text      block
 }
 
 type elemSubst struct {
@@ -622,10 +624,43 @@ func (t *tfunc) run(qual string) {
 	default:
 		t.retType = strings.Join(rts, " × ")
 	}
+	t.closures = map[types.Object]*ast.FuncLit{}
+	ast.Inspect(fd.Body, func(n ast.Node) bool {
+		if as, ok := n.(*ast.AssignStmt); ok && as.Tok == token.DEFINE && len(as.Lhs) == 1 && len(as.Rhs) == 1 {
+			if fl, ok := ast.Unparen(as.Rhs[0]).(*ast.FuncLit); ok {
+				if id, ok := as.Lhs[0].(*ast.Ident); ok && info.Defs[id] != nil {
+					t.closures[info.Defs[id]] = fl
+				}
+			}
+		}
+		return true
+	})
+	// such a local must only ever be called
+	ast.Inspect(fd.Body, func(n ast.Node) bool {
+		switch v := n.(type) {
+		case *ast.CallExpr:
+			if id, ok := ast.Unparen(v.Fun).(*ast.Ident); ok && t.closures[info.Uses[id]] != nil {
+				for _, a := range v.Args {
+					ast.Inspect(a, func(x ast.Node) bool {
+						if aid, ok := x.(*ast.Ident); ok && t.closures[info.Uses[aid]] != nil {
+							t.bad(v, "closure used as a value")
+						}
+						return true
+					})
+				}
+				return false
+			}
+		case *ast.Ident:
+			if t.closures[info.Uses[v]] != nil {
+				t.bad(v, "closure used as a value")
+			}
+		}
+		return true
+	})
 	t.prepass()
 	t.used = []map[string]bool{{}}
 	t.decl = []map[string]bool{{}}
-	c := &ctx{resT: t.retType, ret: func(v string) block { return block{v} }}
+	c := &ctx{resT: t.retType, retT: t.retType, results: t.results, named: t.named, ret: func(v string) block { return block{v} }}
 	body := t.stmts(fd.Body.List, c, func() block {
 		if len(t.results) == 0 {
 			return block{t.withState(nil)}
@@ -760,6 +795,7 @@ const (
 	ckTranslated
 	ckOpaque
 	ckErrCtor
+	ckClosure
 )
 
 func (t *tfunc) callee(call *ast.CallExpr) (kind calleeKind, key string, recvArg ast.Expr, tg transTarget) {
@@ -773,6 +809,9 @@ func (t *tfunc) callee(call *ast.CallExpr) (kind calleeKind, key string, recvArg
 	fun := ast.Unparen(call.Fun)
 	switch f := fun.(type) {
 	case *ast.Ident:
+		if t.closures[info.Uses[f]] != nil {
+			return ckClosure, "", nil, tg
+		}
 		switch o := info.Uses[f].(type) {
 		case *types.Builtin:
 			return ckBuiltin, f.Name, nil, tg
@@ -855,6 +894,11 @@ func (t *tfunc) prepass() {
 		case *ast.CallExpr:
 			kind, key, recvArg, tg := t.callee(v)
 			switch kind {
+			case ckClosure:
+				for _, a := range v.Args {
+					ast.Inspect(a, walk)
+				}
+				return false
 			case ckErrCtor:
 				return false // arguments of fmt.Errorf do not matter
 			case ckTranslated:
